@@ -106,6 +106,14 @@ type c19Scenario struct {
 // goroutine; a handle with addresses in two released blocks was decremented twice after a CAS
 // retry.  TestVerifC19RegressSharedHandleCache keeps the reproducer.
 
+// c19SigStaleHandleCache: ReleaseIPs with more than two addresses lists all handles up front and
+// gives decrementHandle that (by then possibly stale) copy.  If the handle gained its entry for
+// the block after the list was taken (a concurrent assign to the same handle), decrementBlock
+// fails on the stale copy ("isn't linked to handle") and decrementHandle returns the error - it
+// only re-reads the handle after a CAS conflict, not after this - so the address is released but
+// the handle keeps counting it.  No fault needed.
+const c19SigStaleHandleCache = "c19-releaseips-stale-handle-cache-decrement-not-retried"
+
 func c19BlockOf(addr string) string {
 	a := netip.MustParseAddr(addr)
 	bits := 30
@@ -402,6 +410,34 @@ func (s *c19Scenario) checkHandles(when string, final bool) {
 			}
 		}
 	}
+	if ev.Known(c19SigStaleHandleCache) {
+		// Known finding: tolerate an over-count on a handle for which a ReleaseIPs that used the
+		// handle cache (> 2 addresses) overlapped an assign to the same handle.
+		for _, r := range s.r.ops {
+			if r.Kind != c19ReleaseIPs || len(r.Rel) <= 2 {
+				continue
+			}
+			rEnd := r.endStep
+			if !r.finished {
+				rEnd = s.r.step
+			}
+			for _, a := range s.r.ops {
+				if (a.Kind != c19AutoAssign && a.Kind != c19AssignIP) || a.Handle == nil || !r.involved[*a.Handle] {
+					continue
+				}
+				aEnd := a.endStep
+				if !a.finished {
+					aEnd = s.r.step
+				}
+				if a.startStep <= rEnd && r.startStep <= aEnd {
+					if !tainted[*a.Handle] {
+						s.knownHits[c19SigStaleHandleCache]++
+					}
+					tainted[*a.Handle] = true
+				}
+			}
+		}
+	}
 	ids := map[string]bool{}
 	for h := range counts {
 		ids[h] = true
@@ -535,6 +571,9 @@ func c19Run(t *rapid.T, rec *ev.Recorder, mix [c19NumKinds]int, fw c19FaultWeigh
 	s.drain()
 
 	// Evidence.
+	if s.knownHits[c19SigStaleHandleCache] > 0 {
+		rec.Excluded(c19SigStaleHandleCache)
+	}
 	tr := s.r.sched.Trace()
 	conflicts := 0
 	blockClients := map[string]map[int]bool{}
@@ -814,6 +853,62 @@ func TestVerifC19RegressAssignIPConflict(t *testing.T) {
 	if got, want := snap.Handles[h]["10.0.0.0/30"], snap.handleCounts()[h]["10.0.0.0/30"]; got != want {
 		t.Errorf("no faults: AssignIP(10.0.0.1, handle hY) overlapped by AssignIP(10.0.0.2) in the same block: handle hY records %d addresses in 10.0.0.0/30, the block holds %d\n%s\ntrace: %v",
 			got, want, snap, sched.Trace())
+	}
+}
+
+// TestVerifC19ConfirmStaleHandleCache is the deterministic reproducer of the known finding
+// c19SigStaleHandleCache.  It FAILS while the defect is present.  No faults.
+func TestVerifC19ConfirmStaleHandleCache(t *testing.T) {
+	ev.Quiet()
+	w := c19NewWorld([]v3.IPPool{c19Pool("pool4", c19PoolV4, 30), c19Pool("pool6", c19PoolV6, 126)}, nil)
+	w.addNode("n1", nil)
+	w.setConfig(model.IPAMConfig{AutoAllocateBlocks: true})
+	h := "hZ"
+	if err := w.ic.AssignIP(context.Background(), ipam.AssignIPArgs{IP: *cnetIP("10.0.0.1"), HandleID: &h, Hostname: "n1"}); err != nil {
+		t.Fatalf("HARNESS-GAP: %v", err)
+	}
+	sched := memds.NewScheduler(w.store)
+	var errR, errA error
+	// R: release three addresses (handle cache in use); it has listed the handles ...
+	sched.Go("r", func(ctx context.Context) {
+		_, _, errR = w.ic.ReleaseIPs(ctx, ipam.ReleaseOptions{Address: "fd00::f"}, ipam.ReleaseOptions{Address: "10.0.0.2"}, ipam.ReleaseOptions{Address: "10.0.0.3"})
+	})
+	n := 0
+	c19Drive(t, sched, func(calls []*memds.Call) int {
+		if n++; n > 1 {
+			return -1
+		}
+		if calls[0].Method != "List" {
+			t.Fatalf("HARNESS-GAP: expected ReleaseIPs to list the handles first, got %s", calls[0].ID)
+		}
+		return 0
+	})
+	// ... when A assigns fd00::f to the same handle (start to finish) ...
+	sched.Go("a", func(ctx context.Context) {
+		errA = w.ic.AssignIP(ctx, ipam.AssignIPArgs{IP: *cnetIP("fd00::f"), HandleID: &h, Hostname: "n1"})
+	})
+	c19Drive(t, sched, func(calls []*memds.Call) int {
+		for i, c := range calls {
+			if strings.HasPrefix(c.ID, "a|") {
+				return i
+			}
+		}
+		return -1
+	})
+	// ... and R carries on and releases it.
+	c19Drive(t, sched, func(calls []*memds.Call) int { return 0 })
+	if err := sched.Shutdown(); err != nil {
+		t.Fatalf("HARNESS-GAP: %v", err)
+	}
+	if errR != nil || errA != nil {
+		t.Fatalf("HARNESS-GAP: ReleaseIPs err=%v AssignIP err=%v", errR, errA)
+	}
+	snap := w.snapshot()
+	counts := snap.handleCounts()
+	for blk, n := range snap.Handles[h] {
+		if counts[h][blk] != n {
+			t.Errorf("no faults: ReleaseIPs(fd00::f,10.0.0.2,10.0.0.3) listed the handles, then AssignIP(fd00::f,hZ) ran, then the release freed fd00::f: handle hZ still records %d address(es) in %s, the block holds %d\n%s", n, blk, counts[h][blk], snap)
+		}
 	}
 }
 
